@@ -145,6 +145,10 @@ static void hook_event(int id, const void *obj, const double *x, double v, int r
     case 10: {                  /* nlopt_optimize_ entry: the problem handed to the algorithm */
         const nlopt_opt o = (const nlopt_opt) obj;
         static int nested_dumps = 0;
+        if (depth >= 2) {       /* compact marker for every subsidiary run: the limits it was handed, its starting point */
+            fprintf(out, "N 10 d=%d alg=%d maxeval=%d fstop=%d x=", depth, (int) o->algorithm, o->maxeval, o->force_stop);
+            phexlist(out, x, (int) o->n); fprintf(out, "\n");
+        }
         if (depth >= 2 && ++nested_dumps > 12) break;   /* sub-optimizer problems: the first few only */
         fprintf(out, "E 10 d=%d x=", depth); phexlist(out, x, (int) o->n);
         fprintf(out, " "); dump_opt(out, o); fprintf(out, "\n");
@@ -152,7 +156,12 @@ static void hook_event(int id, const void *obj, const double *x, double v, int r
     }
     case 11: {                  /* nlopt_optimize_ returned */
         const nlopt_opt o = (const nlopt_opt) obj;
-        if (depth >= 2) break;
+        if (depth >= 2) {
+            fprintf(out, "N 11 d=%d ret=%d minf=", depth, r); phex(out, v);
+            fprintf(out, " x="); phexlist(out, x, (int) o->n);
+            fprintf(out, " numevals=%d fstop=%d\n", o->numevals, o->force_stop);
+            break;
+        }
         fprintf(out, "E 11 d=%d ret=%d minf=", depth, r); phex(out, v);
         fprintf(out, " x="); phexlist(out, x, (int) o->n);
         fprintf(out, " numevals=%d fstop=%d\n", o->numevals, o->force_stop);
